@@ -259,9 +259,12 @@ def exec_c06(cfg, devs):
 
     def err_hook(port, chan, data):
         if port == 4 and chan in (1, 2) and not ex.frozen and info.get('armed'):
-            if ex._choose(2, 'mem.err') == 1:
+            k = ex._choose(3, 'mem.err')
+            if k:
+                # an error status: one the library has a text for (ENOMEM / ENOENT), or another legal errno (EIO)
                 errs.append((chan, bytes(data[:5])))
-                return [(simcf.SimCF.hdr(4, chan), bytes(data[:5]) + bytes([12 if chan == 2 else 2]))]
+                st = (12 if chan == 2 else 2) if k == 1 else 5
+                return [(simcf.SimCF.hdr(4, chan), bytes(data[:5]) + bytes([st]))]
         return None
     dev.hooks.append(err_hook)
 
@@ -618,6 +621,120 @@ def _focus_filter(devs, i, alt, label):
     return label.startswith('L:') or label in ('lock.release', 'link.rx')
 
 
+# ---------------------------------------------------------------------------------------------
+# Part C: the deck-memory element (DeckMemoryManager / DeckMemory) on top of the real Memory
+# ---------------------------------------------------------------------------------------------
+DECK_BASE = 0x10000
+
+
+def part_deck(_):
+    """Sequences of deck-memory queries, reads and writes, each either served, or refused by the device with an error
+    status, with and without the optional failure callback: every operation ends in exactly one of its callbacks (when it
+    has the one that applies), data is exact, and the next operation of the same kind is accepted and served."""
+    from cflib.crazyflie import Crazyflie
+    from cflib.crazyflie.mem import MemoryElement
+    from vf import c14_dev
+    cfh.setup()
+    p = Partial()
+    sm = simcf.SparseMem(mtype=0x19, size=0x20000000, seed=3)
+    infos = [None] * 8
+    infos[1] = (0x0F, 0x00, 0x1234, 64, DECK_BASE, b'bcAI')          # valid, started, read + write
+    infos[2] = (0x07, 0x00, 0, 0, 2 * DECK_BASE, b'bcRO')            # valid, started, read only
+    for i, b in enumerate(c14_dev.deck_info_image(3, infos)):
+        sm.cells[i] = b
+    dev = simcf.SimCF(protocol=10, log=(), params=(), mems=[sm])
+    ex = cfh.Exec((), dev, time_limit=4000.0, reply_menu=('once',), needs_resending=True)
+    ex.freeze()
+
+    def main():
+        cf = Crazyflie()
+        if not _connect(ex, cf):
+            p.violation('deck:setup:no_connect', 'could not connect', {'part': 'deck'})
+            return
+        mgrs = cf.mem.get_mems(MemoryElement.TYPE_DECK_MEMORY)
+        if len(mgrs) != 1:
+            p.violation('deck:setup:no_manager', 'memory refresh found %d deck memory managers' % len(mgrs), {'part': 'deck'})
+            return
+        mgr = mgrs[0]
+        got = []
+
+        def run_op(kind, deck, fail, with_fcb, tag):
+            """-> 'refused:<exc>' | list of callbacks received"""
+            del got[:]
+            addr, ln = 5, 30
+            fcb = (lambda *a: got.append(('fail',) + a)) if with_fcb else None
+            if fail:
+                first = 0 if kind == 'query' else deck._base_address + addr
+                dev.mem_status[(0, 'r' if kind != 'write' else 'w', first)] = 5
+            try:
+                if kind == 'query':
+                    mgr.query_decks(lambda d: got.append(('ok', sorted(d))), fcb)
+                elif kind == 'read':
+                    deck.read(addr, ln, lambda a, d: got.append(('ok', a, bytes(d))), fcb)
+                else:
+                    data = _content(addr, ln, len(tag))
+                    if fcb is None:
+                        deck.write(addr, data, lambda a: got.append(('ok', a)))
+                    else:
+                        deck.write(addr, data, lambda a: got.append(('ok', a)), fcb)
+            except Exception as e:  # noqa
+                dev.mem_status.clear()
+                return 'refused:%s' % (str(e)[:40],)
+            ex.wait_for(lambda: got, 3.0, 'wait.deck')
+            ex.s.sleep(0.05)
+            dev.mem_status.clear()
+            return list(got)
+
+        decks = {}
+        r = run_op('query', None, False, True, 'q0')
+        p.case(key=('deck', 'query0'), outcome=('query', repr(r)[:40]))
+        if r != [('ok', [1, 2])]:
+            p.violation('deck:query', 'query_decks on a device with decks in slots 1 and 2 ended with %r' % (r,), {'part': 'deck'})
+            return
+        decks = dict(mgr.deck_memories)
+        deck = decks[1]
+        # every sequence of two operations of one kind: (served | failing) x (with | without failure callback), then a
+        # served one - the last must always be accepted and served
+        for kind in ('read', 'write', 'query'):
+            for f1 in (False, True):
+                for c1 in (True, False):
+                    for f2 in (False, True):
+                        for c2 in (True, False):
+                            seq = [(f1, c1), (f2, c2), (False, True)]
+                            res = [run_op(kind, deck, f, c, '%s%d' % (kind, i)) for i, (f, c) in enumerate(seq)]
+                            p.case(key=('deck', kind, f1, c1, f2, c2), outcome=(kind, tuple(repr(x)[:30] for x in res)))
+                            rp = {'part': 'deck', 'kind': kind, 'seq': [list(x) for x in seq]}
+                            for i, ((f, c), r_) in enumerate(zip(seq, res)):
+                                what = '%s #%d of %r (failing=%r, failure callback given=%r)' % (kind, i, seq, f, c)
+                                if isinstance(r_, str):
+                                    p.violation('deck:%s:refused_after_%s' % (kind, 'failure' if any(x[0] for x in seq[:i]) else 'success'),
+                                                '%s was refused: %s' % (what, r_), rp)
+                                    continue
+                                oks = [g for g in r_ if g[0] == 'ok']
+                                fails = [g for g in r_ if g[0] == 'fail']
+                                if not f:
+                                    if len(oks) != 1 or fails:
+                                        p.violation('deck:%s:served_callbacks' % kind, '%s ended with %r' % (what, r_), rp)
+                                    elif kind == 'read' and (oks[0][1] != 5 or oks[0][2] != bytes(sm.read(DECK_BASE + 5, 30))):
+                                        p.violation('deck:read:data', '%s delivered %r, the device holds %r' % (
+                                            what, oks[0][1:], bytes(sm.read(DECK_BASE + 5, 30))), rp)
+                                else:
+                                    if oks or len(fails) != (1 if c else 0):
+                                        p.violation('deck:%s:failed_callbacks:%s' % (kind, 'with_cb' if c else 'without_cb'),
+                                                    '%s ended with %r' % (what, r_), rp)
+                            if kind == 'write' and bytes(sm.read(DECK_BASE + 5, 30)) != _content(5, 30, len('write2')):
+                                p.violation('deck:write:image', 'after the served write the device holds %r' % (
+                                    bytes(sm.read(DECK_BASE + 5, 30)),), rp)
+        cf.close_link()
+
+    ex.run(main)
+    if ex.s.status != 'ok' or ex.s.died:
+        p.violation('deck:%s' % (ex.s.status if ex.s.status != 'ok' else 'thread_died'),
+                    'deck part did not complete: %r %r' % (ex.s.blocked_report, ex.s.died[:1]), {'part': 'deck'})
+    return p
+
+
+
 def _fires(label, alt, what):
     return any(a == alt and nm == what for a, nm in getattr(label, 'lazy', ()))
 
@@ -645,6 +762,7 @@ def run(ck):
               'addr32, status); SparseMem image is the reference')
     ck.assume('a read overlapping a concurrent write is only checked on bytes no write touched')
     ck.pmap(part_a, [(mid, wp) for mid in MEM_IDS for wp in (False, True)])
+    ck.pmap(part_deck, [None])
     cs = configs(ck.quick)
     r = explore(ck, exec_c06, cs, 1)
     ck.note('histories_one_deviation', r)
